@@ -275,6 +275,9 @@ struct InnerMatcherHandle {
     subs_path: String,
     cached_statements: HashMap<String, MatcherStmt>,
     metrics: HashMap<String, HandleMetrics>,
+    // tables the query only references through their primary key: a new row
+    // produces no change on a referenced column, so any change is a candidate
+    key_only_tables: HashSet<String>,
 }
 
 pub type MatchCandidates = IndexMap<TableName, IndexMap<Vec<u8>, i64>>;
@@ -324,7 +327,11 @@ impl Handle for MatcherHandle {
             .parsed
             .table_columns
             .get(change.table.as_str())
-            .map(|cols| change.column.is_crsql_sentinel() || cols.contains(change.column.as_str()))
+            .map(|cols| {
+                change.column.is_crsql_sentinel()
+                    || cols.contains(change.column.as_str())
+                    || self.inner.key_only_tables.contains(change.table.as_str())
+            })
             .unwrap_or_default()
         {
             trace!("could not match against parsed query table and columns");
@@ -759,6 +766,18 @@ impl Matcher {
             });
         }
 
+        let key_only_tables = parsed
+            .table_columns
+            .iter()
+            .filter(|(tbl_name, cols)| {
+                schema
+                    .tables
+                    .get(tbl_name.as_str())
+                    .is_some_and(|table| cols.iter().all(|col| table.pk.contains(col)))
+            })
+            .map(|(tbl_name, _)| tbl_name.clone())
+            .collect::<HashSet<String>>();
+
         let handle = MatcherHandle {
             inner: Arc::new(InnerMatcherHandle {
                 id,
@@ -777,6 +796,7 @@ impl Matcher {
                 cached_statements: statements.clone(),
                 subs_path: sub_path.to_string(),
                 metrics: counter_map,
+                key_only_tables,
             }),
             state: state.clone(),
         };
